@@ -23,8 +23,11 @@ WORK = os.path.join(VERIF, ".work")
 COQ = os.path.join(VERIF, "coq")
 ORACLE = os.path.join(VERIF, "oracle")
 HARNESS = os.path.join(VERIF, "harness")
-EVID = os.path.join(VERIF, "evidence")
-REPLAYS = os.path.join(VERIF, "replays")
+# a run against a seeded change (lib/seedtest.py sets VERIF_SEEDED_WT) must not overwrite the evidence and replays
+# of the real tree: they go to .work/seeded-run/ instead
+_OUT = os.path.join(WORK, "seeded-run") if os.environ.get("VERIF_SEEDED_WT") else VERIF
+EVID = os.path.join(_OUT, "evidence")
+REPLAYS = os.path.join(_OUT, "replays")
 
 GOENV = {
     "GOFLAGS": "-mod=mod", "GOPROXY": "off", "GOSUMDB": "off", "GOTOOLCHAIN": "local",
